@@ -94,7 +94,7 @@ fn canon_counts(acgt: bool, text: &str) -> String {
     lines.iter().map(|(k, c)| format!("{}:{}", k, c)).collect::<Vec<_>>().join(",")
 }
 
-fn canon_min(s2m: bool, text: &str) -> String {
+pub fn canon_min(s2m: bool, text: &str) -> String {
     if s2m {
                 // "id\tMMER:s-e\t...\t\n" ; one line per record, any order
                 let mut lines: Vec<(usize, String)> = vec![];
